@@ -116,3 +116,6 @@ Definition anim_close (fix_meta : bool) (frameCount : Z) (hasPrevCanvas : bool) 
     | None => animData
     end
   else animData.
+
+(** The pinned tree's Close (before commit b34a072), subject of the [_refuted] theorem. *)
+Definition pinned_anim_close := anim_close false.
